@@ -72,17 +72,39 @@ AlphaS == {Ch(121), Ch(32), Ch(9), Ch(160), Ch(12288), Ch(233),
            OpenA, Close(N1), OpenB, Close(N2), [k |-> "closeall"], SelfC, Select, SelectBad, NoMarkupN,
            Mal(<<91, 120>>), Mal(<<91, 120, 32, 112, 93>>), Mal(<<91, 120, 32, 112, 61, 93>>), Mal(<<91, 47>>)}
 
-Alphabet == IF Alpha = "q" THEN AlphaQ ELSE IF Alpha = "t" THEN AlphaT ELSE AlphaS
+\* "n": adjacency - markers directly after markers, replacements and swallowed blanks
+\* (rule 5 looks at the character before the marker, not through markers);
+\* "m": a name opened while it is open (two markers of one name told apart by their
+\* properties) under a third marker: same-name nesting and three-way overlaps
+OpenA2 == Open(N1, <<P(<<112>>, VInt(8))>>, FALSE)                                      \* [x p=8]
+AlphaN == {Ch(121), Ch(32), [k |-> "esc", c |-> 93], OpenA, Close(N1), SelfC, [k |-> "closeall"], Plural1}
+AlphaM == {Ch(121), OpenA, OpenA2, Close(N1), OpenB, Close(N2), [k |-> "closeall"]}
+
+Alphabet == IF Alpha = "q" THEN AlphaQ ELSE IF Alpha = "t" THEN AlphaT
+            ELSE IF Alpha = "n" THEN AlphaN ELSE IF Alpha = "m" THEN AlphaM ELSE AlphaS
 
 Pfx(n, ws) == [k |-> "pfx", name |-> n, ws |-> ws]
 Starts == IF Alpha = "s" THEN {<<>>, <<Pfx(<<120, 233>>, <<32>>)>>}
+          ELSE IF Alpha \in {"n", "m"} THEN {<<>>}
           ELSE {<<>>, <<Pfx(<<120, 233>>, <<32>>)>>, <<Pfx(<<20013, 33, 119987>>, <<>>)>>,
                 <<Pfx(<<121>>, <<32, 32>>)>>}
 
 NBody == IF items # <<>> /\ items[1].k = "pfx" THEN Len(items) - 1 ELSE Len(items)
 
+\* alphabet "n" prunes prefixes that cannot become a line of the region: a close needs
+\* an open marker of its name, and something open needs room for an item that closes it
+RECURSIVE OpenCount(_, _, _)
+OpenCount(its, i, open) ==            \* -1: a close without an open marker of its name
+  IF i > Len(its) THEN Len(open)
+  ELSE LET it == its[i] IN
+    CASE it.k = "open" -> OpenCount(its, i + 1, Append(open, it.name))
+      [] it.k = "close" -> IF InSeq(open, it.name) THEN OpenCount(its, i + 1, RemoveOne(open, it.name)) ELSE -1
+      [] it.k = "closeall" -> OpenCount(its, i + 1, <<>>)
+      [] OTHER -> OpenCount(its, i + 1, open)
+Completable(its) == Alpha \notin {"n", "m"} \/ LET n == OpenCount(its, 1, <<>>) IN n = 0 \/ (n > 0 /\ Len(its) < MaxLen)
+
 Init == items \in Starts
-Next == NBody < MaxLen /\ \E it \in Alphabet : items' = Append(items, it)
+Next == NBody < MaxLen /\ \E it \in Alphabet : Completable(Append(items, it)) /\ items' = Append(items, it)
 Spec == Init /\ [][Next]_vars
 
 \* ------------------------------------------------------------ invariants
@@ -108,10 +130,14 @@ SortedStable ==
 
 RegionNeverFails == WellFormedC13(items) => ResA(items).ok
 
-\* the C13 region and the swallow rule of (B) agree (SwC13 is the linear form used in traces)
-SwallowFormsAgree == WellFormedC13(items) => \A i \in DOMAIN items : SwC13(items, i) = Swallowed(items, i)
+\* the other consistent reading of same-name nesting (a close pairs with the most recent
+\* open marker of its name); a parser must follow ONE of the two readings on all lines
+Alt == INSTANCE Markup WITH PairLast <- TRUE
+AltSeq == IF NoSameNameNesting(items, 1, {}) THEN <<>> ELSE Alt!ExpectedSeq(items)
+\* where no name is nested in itself the reading does not matter
+PairingOnlyMattersWhenNested == NoSameNameNesting(items, 1, {}) => Alt!ExpectedSeq(items) = ExpectedSeq(items)
 
 Emit ==
   (EmitBeh /\ items # <<>> /\ (Alpha = "s" \/ WellFormedC13(items)))
-    => PrintT(<<"BEH", ToJson([items |-> items, exp |-> ExpectedSeq(items)])>>)
+    => PrintT(<<"BEH", ToJson([items |-> items, exp |-> ExpectedSeq(items), alt |-> AltSeq])>>)
 =============================================================================
